@@ -1,4 +1,4 @@
---------------------------------- MODULE O2O ---------------------------------
+--------------------------------- MODULE O2OPipe ---------------------------------
 (* The derive pipeline as a state machine (DESIGN 2.1-2.5): Author* ; Seal ; ParseTypeAttr* ;
    ParseMember* ; Validate ; (Reject | EmitImpl* ; Finish).  The requirement-level operators come
    from the O2O* modules; the actions below are shaped like the code (one per critical section). *)
@@ -18,13 +18,13 @@ VARIABLES
 vars == <<in, pc, ti, traits, mi, fctx, merged, errors, pending, impls>>
 
 TNames == {"from_owned", "owned_try_into", "map"}
-Init == /\ in = [traits |-> <<>>, tattrs |-> <<>>, ms |-> <<>>, rms |-> <<>>]
+Init == /\ in = [dt |-> "struct", shape |-> "named", traits |-> <<>>, tattrs |-> <<>>, ms |-> <<>>, rms |-> <<>>]
         /\ pc = "author" /\ ti = 1 /\ traits = <<>> /\ mi = 1 /\ fctx = 0 /\ merged = <<>>
         /\ errors = <<>> /\ pending = {} /\ impls = <<>>
 
 \* ------------------------------ environment: the author writes the type ------------------------------
 AddTrait(n, cp, e) == /\ pc = "author" /\ Len(in.traits) < MaxTraits /\ in.rms = <<>>
-                      /\ in' = [in EXCEPT !.traits = Append(@, [n |-> n, cp |-> cp, err |-> e])]
+                      /\ in' = [in EXCEPT !.traits = Append(@, [n |-> n, cp |-> cp, err |-> e, hint |-> "-"])]
                       /\ UNCHANGED <<pc, ti, traits, mi, fctx, merged, errors, pending, impls>>
 AddMember(o, r, st, sk) == /\ pc = "author" /\ Len(in.rms) < MaxMembers
                            /\ in' = [in EXCEPT !.rms = Append(@, [own |-> o, rep |-> r, stop |-> st, skip |-> sk]),
@@ -62,7 +62,7 @@ EndParseMembers == pc = "parse_members" /\ mi > Len(in.rms) /\ pc' = "validate"
 \* ------------------------------ system: validate::validate ------------------------------
 SetToSeq(S) == CHOOSE s \in [1..Cardinality(S) -> S] : \A x \in S : \E i \in DOMAIN s : s[i] = x
 Validate == /\ pc = "validate"
-            /\ LET F == Faults([traits |-> traits, tattrs |-> in.tattrs, ms |-> in.ms]) IN
+            /\ LET F == Faults([dt |-> in.dt, shape |-> in.shape, traits |-> traits, tattrs |-> in.tattrs, ms |-> in.ms]) IN
                IF F = {} THEN pc' = "expand" /\ pending' = DOMAIN ImplBag(traits) /\ UNCHANGED errors
                ELSE pc' = "rejected" /\ errors' = errors \o SetToSeq(F) /\ UNCHANGED pending
             /\ UNCHANGED <<in, ti, traits, mi, fctx, merged, impls>>
@@ -90,7 +90,7 @@ ImplsAreDocumented == pc = "done" => /\ {impls[i] : i \in DOMAIN impls} = DOMAIN
 FoldIsUnroll == pc \in {"validate", "expand", "done"} => merged = Unrolled(in.rms)
 \* C15 on the machine: rejected iff some documented rule is broken, and then every broken rule is reported
 RejectedIffFaulty == /\ pc = "rejected" => errors # <<>>
-                     /\ pc \in {"expand", "done"} => Faults([traits |-> traits, tattrs |-> in.tattrs, ms |-> in.ms]) = {} /\ ~Conflict(in.rms)
+                     /\ pc \in {"expand", "done"} => Faults([dt |-> in.dt, shape |-> in.shape, traits |-> traits, tattrs |-> in.tattrs, ms |-> in.ms]) = {} /\ ~Conflict(in.rms)
 \* C16 on the machine
 NeverPanics == pc # "panic"
 Terminates == (pc = "parse_type") ~> (pc \in {"done", "rejected"})
